@@ -2,26 +2,13 @@
 From Koreo Require Export CorrLib Encode CelLit.
 Local Open Scope list_scope.
 
-(* repr(float) as observed from CPython, per float occurring in the case *)
-Definition ftable := list ((Z * Z) * string).
-
-Fixpoint fprint_of (tb : ftable) (m e : Z) : text :=
-  match tb with
-  | [] => []
-  | ((m', e'), s) :: r => if (m =? m') && (e =? e') then txt s else fprint_of r m e
-  end.
-
 Definition nkind_eqb (a b : nkind) : bool :=
   match a, b with KInt, KInt | KFloat, KFloat => true | _, _ => false end.
 
 Definition zz_eqb (a b : Z * Z) : bool := (fst a =? fst b) && (snd a =? snd b).
 
-(* the two facts the proofs assume of repr(float), checked on the observed text *)
-Definition ftable_ok (tb : ftable) : bool :=
-  forallb (fun '((m, e), s) =>
-             opt_eqb nkind_eqb (numeral_kind (txt s)) (Some KFloat) &&
-             opt_eqb zz_eqb (fparse (txt s)) (Some (m, e)) &&
-             float_ok m e) tb.
+(* ftable / fprint_of / ftable_ok (repr(float) as observed from CPython, and the
+   two facts the proofs assume of it) are defined in CelLit.v *)
 
 (* order-sensitive structural equality *)
 Fixpoint json_same (a b : json) {struct a} : bool :=
